@@ -7,6 +7,8 @@ import RsslVerif.Lemmas.Dec2BinCutoff
 import RsslVerif.Lemmas.Dec2BinMono
 import RsslVerif.Lemmas.LitFormatEmit
 import RsslVerif.Lemmas.LexerFiles
+import RsslVerif.Lemmas.LexNumeral
+import RsslVerif.Lemmas.LexNumeralInt
 import RsslVerif.Gen.LitFormatTables
 /-!
 # C10 — lexing is lossless and numeric literals are exact
@@ -345,6 +347,105 @@ example : (match literalFloat [48, 46, 48, 48, 51, 49, 51, 48, 56] with
     | .ok (_, tok) => tok.floatBits? | .error _ => none) = some 0x3f69a5c37387b719 := by decide
 example : (match literalFloat [48, 46, 48, 53, 53, 76] with
     | .ok (_, tok) => tok.floatBits? | .error _ => none) = some 0x3fac28f5c28f5c29 := by decide
+
+/-! ## Part 3b — a numeral is ONE literal token (maximal munch) -/
+
+/-- the dispatch of `token_intermediate` as the model (`tokenStep`) and `token_numeric_dispatch` read it, re-extracted
+every run: the four patterns of `match input.first()` in order (digit, identifier start, any other byte, end), and the
+digit arm consists of exactly one statement — `match literal_float(input)` returning its token, calling
+`literal_int(input)` exactly on `OtherTokenBytes` and passing every other error on. Nothing in front of it (no
+pre-classification of the numeral by a look-ahead), no other exit. The word arm is `any_word(input)`, the `None` arm
+`end_of_stream()`. -/
+theorem numeric_dispatch_as_modelled :
+    dispatchPatterns = ["Some(b'0'..=b'9')", "Some(b'A'..=b'Z' | b'a'..=b'z' | b'_')", "Some(_)", "None"] ∧
+    numericArmSteps = ["floatElseIntOnOtherTokenBytes"] ∧ wordArmSteps = ["anyWord"] ∧
+    noneArmSteps = ["endOfStream"] := by decide
+
+/-- **numeral_is_one_token**: every numeral of the decimal floating grammar
+`digits "." digits* [exponent] [suffix] | digits exponent [suffix]`, `exponent = (e|E) [+|-] digits`,
+`suffix = h H f F l L` (`Numeral`, any number of digits, leading zeros, no fraction digits, either case of the exponent
+letter and of the suffix), followed by any text that does not continue it (`Boundary`: the end of the file or a byte
+that is neither a letter, digit, `_` nor `#`), is read by `token_intermediate` as ONE token that consumes exactly the
+numeral: the float literal of the kind its suffix names, carrying `nearest64` of its digits scaled by its exponent
+(narrowed once for `f`/`h`) — with `nearest64_correct` the correctly rounded double of the decimal it spells. It is
+never an integer followed by an identifier, never split at the exponent letter, the sign or the point. -/
+theorem numeral_is_one_token (n : Numeral) (hwf : n.WF) (rest : Bytes) (hb : Boundary rest) (inc : Bool) :
+    tokenIntermediate (n.bytes ++ rest) inc = .ok (rest, n.token) ∧
+    n.token = mkFloatToken (Dec2Bin.nearest64 n.digits (n.expValue - (n.fracLen : Nat))) n.suffixType ∧
+    (∀ d ∈ n.digits, d < 10) :=
+  ⟨numeral_one_token n hwf rest hb inc, rfl, by
+    cases n with
+    | point w ws fr ex sfx =>
+      intro d hd
+      simp only [Numeral.digits, List.mem_append] at hd
+      exact hd.elim (hwf.1 d) (hwf.2.1 d)
+    | expo w ws ex sfx => exact hwf.1⟩
+
+/-- the same at the level of `TokenStream::next` on a file that starts with the numeral: the first token is the
+numeral's literal with the span `[0, |numeral|)` -/
+theorem numeral_first_token_span (n : Numeral) (hwf : n.WF) (rest : Bytes) (hb : Boundary rest)
+    (trailing debug inc : Bool) :
+    ∃ s', (Stream.new (n.bytes ++ rest) trailing debug).next inc = .ok (⟨n.token, 0, n.bytes.length⟩, s') ∧
+      s'.offset = n.bytes.length ∧ s'.input = n.bytes ++ rest := by
+  have h := numeral_one_token n hwf rest hb inc
+  obtain ⟨b, r, hbr, -⟩ := n.bytes_head hwf []
+  have hlen : 0 < n.bytes.length := by
+    simp only [List.append_nil] at hbr
+    rw [hbr]; simp
+  have h1 : ¬ (0 = (n.bytes ++ rest).length) := by simp; omega
+  have h2 : ¬ ((n.bytes ++ rest).length < rest.length) := by simp
+  have h3 : (n.bytes ++ rest).length - rest.length = n.bytes.length := by simp
+  refine ⟨{ (Stream.new (n.bytes ++ rest) trailing debug) with
+      offset := n.bytes.length, lastWasEndline := decide (n.token = .simple .Endline) }, ?_, rfl, rfl⟩
+  have h4 : ¬ (debug = true ∧ ¬ 0 < n.bytes.length) := by simp [hlen]
+  simp only [Stream.next, Stream.new, List.drop_zero, h, h1, h2, h3, h4, and_false, if_false, Nat.not_lt_zero]
+
+/-- non-vacuity: `1E5`, `3E+2`, `25E-2f`, `7E-7`, `1.e5H`, `00.50L` are numerals of the grammar and these are their tokens
+(the spellings the seeded mutant C10-5 read as integer + identifier) -/
+example : (Numeral.expo 1 [] ⟨.E, .absent, 5, []⟩ none).bytes = [49, 69, 53] ∧
+    (Numeral.expo 1 [] ⟨.E, .absent, 5, []⟩ none).WF ∧
+    (Numeral.expo 1 [] ⟨.E, .absent, 5, []⟩ none).token = .litFloat 0x40f86a0000000000 :=
+  ⟨by decide, by simp [Numeral.WF], by decide⟩
+example : (Numeral.expo 3 [] ⟨.E, .plus, 2, []⟩ none).bytes = [51, 69, 43, 50] ∧
+    (Numeral.expo 3 [] ⟨.E, .plus, 2, []⟩ none).token = .litFloat 0x4072c00000000000 := by decide
+example : (Numeral.expo 2 [5] ⟨.E, .minus, 2, []⟩ (some ⟨.Float, false⟩)).bytes = [50, 53, 69, 45, 50, 102] ∧
+    (Numeral.expo 2 [5] ⟨.E, .minus, 2, []⟩ (some ⟨.Float, false⟩)).token = .litFloat32 0x3e800000 := by decide
+example : (Numeral.expo 7 [] ⟨.E, .minus, 7, []⟩ none).token = .litFloat 0x3ea77cf44765195f := by decide
+example : (Numeral.point 1 [] [] (some ⟨.e, .absent, 5, []⟩) (some ⟨.Half, true⟩)).bytes = [49, 46, 101, 53, 72] ∧
+    (Numeral.point 1 [] [] (some ⟨.e, .absent, 5, []⟩) (some ⟨.Half, true⟩)).token = .litFloat16 0x47c35000 := by decide
+example : (match tokenIntermediate [49, 69, 53, 59] false with
+    | .ok (rest, tok) => some (rest, tok) | .error _ => none) = some ([59], .litFloat 0x40f86a0000000000) := by decide
+example : Boundary [59] ∧ Boundary [] ∧ Boundary [32, 120] ∧ ¬ Boundary [120] := by
+  refine ⟨?_, ?_, ?_, ?_⟩
+  · intro b r h; cases h; decide
+  · intro b r h; cases h
+  · intro b r h; cases h; decide
+  · intro h; have := (h 120 [] rfl).1; revert this; decide
+
+/-- **numeral_int_is_one_token_partial**: a decimal integer numeral of the C grammar (`0`, or a non-zero digit followed by
+any digits) with any of the 13 spellings of the suffix (none, `u U l L`, `ul uL Ul UL`, `lu lU Lu LU`:
+`IntSuffixSpelling`), followed by a text that does not continue it (`IntBoundary`: the end, or a byte that is neither a
+letter, digit, `_` nor `.`), is read by `token_intermediate` as ONE token consuming exactly the numeral: the integer literal
+of the kind the suffix names, holding the positional value of the digits — whenever that value fits the kind
+(`mkIntToken?`; a value that does not fit is the diagnostic of `int_overflow_rejected`). `literal_float` declines it
+(`OtherTokenBytes`), `literal_int` takes the decimal route.
+*Partial*: the octal (`0` octal-digits) and hexadecimal (`0x` hex-digits) numerals are not covered by this statement
+(their value and rejection are `int_value_exact` / `int_overflow_rejected` on the maximal digit run; that the run and the
+suffix are the whole numeral is checked by the `C10.num` stream only). -/
+theorem numeral_int_is_one_token_partial (d : Nat) (ds : List Nat) (hlt : ∀ x ∈ d :: ds, x < 10)
+    (hlead : d ≠ 0 ∨ ds = []) (sfx : IntSuffixSpelling) (tok : Token)
+    (hn : Dec2Bin.ofDigits 10 (d :: ds) < 2 ^ 64)
+    (hk : mkIntToken? (Dec2Bin.ofDigits 10 (d :: ds)) sfx.ty = some tok) (rest : Bytes) (hb : IntBoundary rest)
+    (inc : Bool) :
+    tokenIntermediate ((d :: ds).map digitByte ++ (sfx.bytes ++ rest)) inc = .ok (rest, tok) :=
+  decimalInt_one_token d ds hlt hlead sfx tok hn hk rest hb inc
+
+/-- non-vacuity: `42UL`, `4294967295U`, `0l` -/
+example : ([4, 2].map digitByte ++ (IntSuffixSpelling.ul true true).bytes) = [52, 50, 85, 76] ∧
+    mkIntToken? (Dec2Bin.ofDigits 10 [4, 2]) (IntSuffixSpelling.ul true true).ty = some (.litIntU64 42) := by decide
+example : mkIntToken? (Dec2Bin.ofDigits 10 [4, 2, 9, 4, 9, 6, 7, 2, 9, 5]) (IntSuffixSpelling.u true).ty =
+    some (.litIntU32 4294967295) := by decide
+example : mkIntToken? (Dec2Bin.ofDigits 10 [0]) (IntSuffixSpelling.l false).ty = some (.litIntS64 0) := by decide
 
 /-! ## Part 4 — the rounding reference itself (`Spec/Dec2Bin.lean`) against the mathematical statement -/
 
